@@ -1,5 +1,5 @@
 /-
-C07 — one pair of a general comparison, left operand in duration: part of the 17 x 17 case analysis of
+C07 — one pair of a general comparison, left operand in yearMonthDuration: part of the 17 x 17 case analysis of
 EPV/Lemmas/CompareGeneral.lean (split so that every file compiles in well under a minute).
 -/
 import EPV.Lemmas.CompareGeneralLemmas
@@ -8,23 +8,23 @@ set_option linter.unusedVariables false
 namespace EPV.Cmp
 open EPV.CmpSpec EPV.CmpFind
 
-def grpG3 : Atom → Bool
-  | .dur .. => true | _ => false
+def grpG5 : Atom → Bool
+  | .ymd _ => true | _ => false
 
 set_option maxHeartbeats 4000000 in
-theorem pairGeneral_conforms_G3 (m : Mode) (op : Op) (a b : Atom) (hg : grpG3 a = true)
+theorem pairGeneral_conforms_G5 (m : Mode) (op : Op) (a b : Atom) (hg : grpG5 a = true)
     (h1 : trigTol false op a b = false) (h2 : trigPromotion false a b = false)
     (h4 : trigUntyped op a b = false)
     (h5 : pairSpec m op a b ≠ .error .unsupported) (h6 : pairGeneral m op a b ≠ .error .unsupported)
     (h8 : dtConsistent a b = true) (h9 : trigUntypedQN m a b = false) :
     pairGeneral m op a b = pairSpec m op a b := by
-  cases a <;> simp [grpG3] at hg <;> cases b <;>
+  cases a <;> simp [grpG5] at hg <;> cases b <;>
       first
       | (gp_simp; done)
       | (simp [trigUntyped, isTemporal, Atom.isDT, Atom.isDur] at h4; done)
       | (simp [dtConsistent, Atom.isDT, Atom.dt] at h8; gp_simp; simp [dtCompare_eq_six _ _ _ h8]; done)
       | skip
-  case dur.ua => exact pg_temporal_ua m op _ _ rfl h5
+  case ymd.ua => exact pg_temporal_ua m op _ _ rfl h5
   all_goals
     cases op <;> gp_simp <;>
       (try simp [six, durCmp4_dtd, durCmp4_ymd, iCmp, cmpBy, PyR.map, Op.swap]) <;>
